@@ -86,7 +86,7 @@ return _FN
     if ok:
         loop = next(x for x in walk_no_nested(g.node) if isinstance(x, ast.While))
         cand = loop.body[0].value
-        counter = unparse(loop.body[-1].target)
+        counter = unparse(next(x for x in loop.body if isinstance(x, ast.AugAssign)).target)
         names = {x.id for x in ast.walk(cand) if isinstance(x, ast.Name)}
         ok = {'name', 'ext', counter} <= names
     ctx.add('C14.R1', 'get_new_file_name', ok, g, 'a candidate name is returned only when no file of that name exists; candidates are numbered' if ok else 'get_new_file_name no longer loops until the name is free', 'loop')
